@@ -29,7 +29,7 @@ type c16Case struct {
 	TL, TA     [2]int // target labels/annotations: k1 in {absent,"v","w"}, k2 in {absent,"w"}
 	TStatus    int    // 0 absent, 1 {s:1}
 	ForeignFin bool
-	RL, RA     [3]int // response labels/annotations for k1,k3,k2: 0 unnamed, 1 "v", 2 null
+	RL, RA     [3]int // response labels/annotations for k1,k3,k2: 0 unnamed, 1 "v", 2 null, 3 "" (k3 only)
 	RStatus    int    // 0 null, 1 equal to the observed one, 2 different
 	Mode       int    // 0 no finalize hook; 1 finalize hook, live target; 2 finalizing, finalized=false; 3 finalizing, finalized=true; 4 no finalize hook, the sync answer carries a stray finalized=true; 5 finalize hook, target pending deletion held only by a foreign finalizer (ours already gone), finalized=true
 	Stale      bool   // the target's spec is edited after the cache was filled
@@ -83,6 +83,8 @@ func c16RespMap(r [3]int) kit.M {
 			m[key] = "v"
 		case 2:
 			m[key] = nil
+		case 3:
+			m[key] = "" // a key with the empty string as its value (node-role style markers)
 		}
 	}
 	return m
@@ -354,12 +356,15 @@ func TestVerifC16(t *testing.T) {
 	if thorough {
 		rk2 = 3
 	}
-	dims := []int{2, 3, 2, 3, 2, 2, 2, 3, 3, rk2, 3, 3, rk2, 3, 6, 2}
+	dims := []int{2, 3, 2, 3, 2, 2, 2, 3, 4, rk2, 3, 4, rk2, 3, 6, 2}
 	mc.Product(r, dims, func(idx int, d []int) {
 		c := c16Case{Sub: d[0] == 0, TL: [2]int{d[1], d[2]}, TA: [2]int{d[3], d[4]}, TStatus: d[5], ForeignFin: d[6] == 1,
 			RL: [3]int{d[7], d[8], d[9]}, RA: [3]int{d[10], d[11], d[12]}, RStatus: d[13], Mode: d[14], Stale: d[15] == 1}
 		if c.Mode == 5 && !c.ForeignFin {
 			return // nothing would hold the object
+		}
+		if thorough && (c.RL[1] == 3 || c.RA[1] == 3) && (c.RL[2] != 0 || c.RA[2] != 0) {
+			return // the empty-string value runs on the quick tier's response alphabet (k2 unnamed) in both tiers
 		}
 		if !thorough && (c.Stale || c.Mode > 0) && (c.TL[1] == 1 || c.TA[1] == 1 || c.ForeignFin && c.Mode == 0) {
 			// quick tier: the stale / finalizer modes run on the reduced target alphabet
